@@ -1,3 +1,3 @@
 SPECIFICATION Spec
-INVARIANTS DriverClaimPipe PipeInv ScalarInv CmtInv BigPipeInv BigLineInv
+INVARIANTS DriverClaimPipe PipeInv ScalarInv CmtInv BigPipeInv BigLineInv TextRtInv
 CHECK_DEADLOCK FALSE
